@@ -1034,9 +1034,25 @@ impl DhcpService {
         conf: super::config::SharedConfig,
         pool: pool::Pool,
     ) -> Result<Self, String> {
+        Self::verif_new_on_port(netinfo, conf, pool, 0).await
+    }
+
+    /// Verification hook: as `verif_new`, on a given UDP port (67 inside a private network
+    /// namespace) and with packet info enabled as in `new_internal`, so that `run` can be driven
+    /// with real frames.
+    #[cfg(feature = "verif")]
+    pub async fn verif_new_on_port(
+        netinfo: erbium_net::netinfo::SharedNetInfo,
+        conf: super::config::SharedConfig,
+        pool: pool::Pool,
+        port: u16,
+    ) -> Result<Self, String> {
         let rawsock = Arc::new(raw::RawSocket::new(raw::EthProto::ALL).map_err(|e| e.to_string())?);
-        let listener = UdpSocket::bind(&[UNSPECIFIED4.with_port(0)])
+        let listener = UdpSocket::bind(&[UNSPECIFIED4.with_port(port)])
             .await
+            .map_err(|e| e.to_string())?;
+        listener
+            .set_opt_ipv4_packet_info(true)
             .map_err(|e| e.to_string())?;
         Ok(Self {
             netinfo,
@@ -1046,6 +1062,13 @@ impl DhcpService {
             serverids: Arc::new(sync::Mutex::new(std::collections::HashSet::new())),
             listener,
         })
+    }
+
+    /// Verification hook: the lease store's mutex, so that a harness can hold it the way a
+    /// concurrent packet handler does.
+    #[cfg(feature = "verif")]
+    pub fn verif_pool(&self) -> Arc<sync::Mutex<pool::Pool>> {
+        self.pool.clone()
     }
 
     pub async fn new(
